@@ -6,9 +6,14 @@
 package main
 
 import (
+	"bytes"
 	"fmt"
+	"io"
 	"os"
+	"os/exec"
+	"runtime/debug"
 	"sort"
+	"strings"
 
 	"verif/internal/core"
 )
@@ -67,9 +72,94 @@ func main() {
 		fmt.Fprintln(os.Stderr, "unknown check", id)
 		os.Exit(2)
 	}
+	// C05-C08 drive the analyser over recursive template sets. Unbounded recursion there does not panic: the Go
+	// runtime aborts the whole process (stack overflow, out of memory). These checks therefore run in a child
+	// process with a small stack limit; a child that dies without a verdict is a violation of C08 (the calls did not
+	// finish) and a harness error for the others.
+	if supervised[id] && os.Getenv("VCHECK_CHILD") == "" {
+		os.Exit(supervise(id, tier, def.level))
+	}
+	if supervised[id] {
+		debug.SetMaxStack(192 << 20)
+	}
 	r := core.NewRun(id, tier, def.level)
 	def.fn(r)
 	r.Finish()
+}
+
+var supervised = map[string]bool{"C05": true, "C06": true, "C07": true, "C08": true}
+
+func supervise(id, tier, level string) int {
+	// address-space limit: a runaway analysis ends with "out of memory" in seconds instead of exhausting the machine
+	cmd := exec.Command("sh", append([]string{"-c", `ulimit -v 12000000 2>/dev/null; exec "$0" "$@"`}, os.Args...)...)
+	cmd.Env = append(os.Environ(), "VCHECK_CHILD=1")
+	var tail bytes.Buffer
+	var verdict verdictSeen
+	verdict.want = []byte(id + " " + tier + ": violations=")
+	cmd.Stdout = io.MultiWriter(os.Stdout, &verdict)
+	cmd.Stderr = io.MultiWriter(os.Stderr, &limitedTail{buf: &tail})
+	err := cmd.Run()
+	code := 0
+	if ee, ok := err.(*exec.ExitError); ok {
+		code = ee.ExitCode()
+	} else if err != nil {
+		code = -1
+	}
+	if (code == 0 || code == 1 || code == 2) && (verdict.seen || !bytes.Contains(tail.Bytes(), []byte("fatal error:"))) {
+		return code
+	}
+	// the child was aborted by the runtime or killed
+	msg := tail.String()
+	line := "child process ended with status " + fmt.Sprint(code)
+	for _, l := range strings.Split(msg, "\n") {
+		if strings.HasPrefix(l, "fatal error:") || strings.HasPrefix(l, "runtime: goroutine stack exceeds") || strings.HasPrefix(l, "panic:") {
+			line = l
+			break
+		}
+	}
+	r := core.NewRun(id, tier, level)
+	r.NotExhaustive("the exploration was aborted with the process")
+	if id == "C08" {
+		if len(msg) > 1500 {
+			msg = msg[:1500]
+		}
+		r.Witness("process-aborted", "", line, "the checking process was aborted while it drove the library (unbounded recursion or memory use inside a call): "+line+"\n"+msg, nil)
+	} else {
+		r.HarnessError("the checking process was aborted: %s", line)
+	}
+	r.Finish()
+	return 0
+}
+
+// verdictSeen notes whether the child printed its summary line.
+type verdictSeen struct {
+	want []byte
+	seen bool
+	last []byte
+}
+
+func (v *verdictSeen) Write(p []byte) (int, error) {
+	v.last = append(v.last, p...)
+	if bytes.Contains(v.last, v.want) {
+		v.seen = true
+	}
+	if len(v.last) > 4096 {
+		v.last = v.last[len(v.last)-512:]
+	}
+	return len(p), nil
+}
+
+// limitedTail keeps the first 64 KiB written to it.
+type limitedTail struct{ buf *bytes.Buffer }
+
+func (l *limitedTail) Write(p []byte) (int, error) {
+	if room := 64<<10 - l.buf.Len(); room > 0 {
+		if len(p) < room {
+			room = len(p)
+		}
+		l.buf.Write(p[:room])
+	}
+	return len(p), nil
 }
 
 func usage() {
